@@ -33,13 +33,25 @@ import luqum.exceptions as X
 
 
 def ownership_cases():
+    """C14-O, stated on behaviour (whatever mechanism hands out lexers): two calls that overlap in time never get the same lexer
+    object, no call gets the module lexer, also after a call that raised; input, result and exception are forwarded unchanged.
+    When the documented mechanism (a module-level threading.local) is present, it is checked too."""
     def run(cx):
-        calls = []
         sentinel = object()
         boom = X.ParseSyntaxError("boom")
+        inp = SymStr(name="input")
+        bad = SymStr(name="bad_input")
+        calls = []
+        gate = {"hold": None}
+        lock = threading.Lock()
 
         def rec(**kw):
-            calls.append(kw)
+            with lock:
+                calls.append((threading.get_ident(), kw))
+            h = gate["hold"]
+            if h is not None:
+                h["inside"].release()
+                h["go"].wait(10)
             if kw["input"] is bad:
                 raise boom
             return sentinel
@@ -53,56 +65,70 @@ def ownership_cases():
         orig = P._orig_parse
         P._orig_parse = rec
         lex.Lexer.clone = spy_clone
-        had = hasattr(TH.thread_local, "lexer")
-        old = getattr(TH.thread_local, "lexer", None)
-        other = {}
+        tl = getattr(TH, "thread_local", None)
+        had = tl is not None and hasattr(tl, "lexer")
+        old = getattr(tl, "lexer", None) if tl is not None else None
+        results = {}
         try:
             if had:
-                del TH.thread_local.lexer
-            inp = SymStr(name="input")
-            bad = SymStr(name="bad_input")
+                del tl.lexer
             before = frame.snapshot()
             r1 = TH.parse(inp)
-            mine = getattr(TH.thread_local, "lexer", None)
             r2 = TH.parse(inp, lexer=P.lexer, debug=True, tracking=True)
             try:
                 TH.parse(bad)
                 raised = None
             except X.ParseSyntaxError as e:
                 raised = e
-            changed = frame.diff(before, frame.snapshot())
+            r3 = TH.parse(inp)
+            changed = [c for c in frame.diff(before, frame.snapshot())]
+            nseq = len(calls)
+            # two overlapping calls (after a call that raised): each is held inside LRParser.parse until both are there
+            hold = {"inside": threading.Semaphore(0), "go": threading.Event()}
+            gate["hold"] = hold
 
-            def second_thread():
-                other["had"] = hasattr(TH.thread_local, "lexer")
-                other["r"] = TH.parse(inp)
-                other["lexer"] = getattr(TH.thread_local, "lexer", None)
-                other["r2"] = TH.parse(inp)
-            t = threading.Thread(target=second_thread)
-            t.start()
-            t.join()
-            after_mine = getattr(TH.thread_local, "lexer", None)
+            def worker(name, arg):
+                try:
+                    results[name] = ("value", TH.parse(arg))
+                except Exception as e:  # noqa: BLE001
+                    results[name] = ("raised", e)
+            ths = [threading.Thread(target=worker, args=("A", inp)), threading.Thread(target=worker, args=("B", bad)),
+                   threading.Thread(target=worker, args=("C", inp))]
+            for t in ths:
+                t.start()
+            got = sum(1 for _ in range(3) if hold["inside"].acquire(timeout=10))
+            hold["go"].set()
+            for t in ths:
+                t.join(10)
+            gate["hold"] = None
         finally:
             P._orig_parse = orig
             lex.Lexer.clone = real_clone
-            if had:
-                TH.thread_local.lexer = old
-            elif hasattr(TH.thread_local, "lexer"):
-                del TH.thread_local.lexer
+            if tl is not None:
+                if had:
+                    tl.lexer = old
+                elif hasattr(tl, "lexer"):
+                    del tl.lexer
         out = []
-        out.append(("C14-O/the-lexer-handed-to-the-parser-is-the-calling-thread's-own-clone-made-once",
-                    len(calls) == 5 and all(c["lexer"] is mine for c in calls[:3]) and mine is not None and mine is not P.lexer
-                    and [s for s, c in clones] == [P.lexer, P.lexer] and clones[0][1] is mine and isinstance(mine, lex.Lexer)))
-        out.append(("C14-O/another-thread-gets-another-clone-and-does-not-see-this-one",
-                    other.get("had") is False and other.get("lexer") is not None and other["lexer"] is not mine and other["lexer"] is not P.lexer
-                    and len(clones) == 2 and clones[1][1] is other["lexer"] and calls[3]["lexer"] is other["lexer"] and calls[4]["lexer"] is other["lexer"]
-                    and after_mine is mine))
+        seq = [kw for _, kw in calls[:nseq]]
+        par = [kw for _, kw in calls[nseq:]]
+        lexers_par = [kw["lexer"] for kw in par]
+        out.append(("C14-O/calls-that-overlap-in-time-never-share-a-lexer-also-after-a-call-that-raised",
+                    got == 3 and len(par) == 3 and len({id(x) for x in lexers_par}) == 3))
+        out.append(("C14-O/no-call-is-given-the-module-lexer-and-every-lexer-is-a-clone-of-it",
+                    all(kw["lexer"] is not P.lexer and isinstance(kw["lexer"], lex.Lexer) and kw["lexer"].lexre is P.lexer.lexre
+                        and kw["lexer"].lexstatere is P.lexer.lexstatere and kw["lexer"].__dict__ is not P.lexer.__dict__ for kw in seq + par)
+                    and all(src is P.lexer or src.lexre is P.lexer.lexre for src, _ in clones)))
         out.append(("C14-O/input-result-and-exception-are-forwarded-unchanged",
-                    r1 is sentinel and r2 is sentinel and raised is boom and calls[0]["input"] is inp and calls[2]["input"] is bad
-                    and other.get("r") is sentinel and other.get("r2") is sentinel))
-        out.append(("C14-O/thread_local-is-a-threading.local", type(TH.thread_local) is threading.local or isinstance(TH.thread_local, threading.local)))
-        out.append(("C14-O/clones-share-only-the-immutable-master-tables",
-                    mine.lexre is P.lexer.lexre and mine.lexstatere is P.lexer.lexstatere and mine.__dict__ is not P.lexer.__dict__))
-        out.append(("C14-W/thread.parse-writes-no-module-class-or-singleton-state", (not changed, {"written": changed[:8]})))
+                    r1 is sentinel and r2 is sentinel and r3 is sentinel and raised is boom and len(seq) == 4 and seq[0]["input"] is inp
+                    and seq[2]["input"] is bad and results.get("A") == ("value", sentinel) and results.get("C") == ("value", sentinel)
+                    and results.get("B", (None, None))[0] == "raised" and results["B"][1] is boom))
+        if tl is not None:
+            out.append(("C14-O/thread_local-is-a-threading.local", isinstance(tl, threading.local)))
+            out.append(("C14-O/one-clone-per-thread-made-once", len({id(kw["lexer"]) for kw in seq}) == 1))
+        # the only module-level thing thread.parse may touch is its own registry of lexers (thread_local / a pool), never luqum state
+        foreign = [c for c in changed if not c.startswith(("module luqum.thread.", "object luqum.thread."))]
+        out.append(("C14-W/thread.parse-writes-no-module-class-or-singleton-state-outside-its-own-lexer-registry", (not foreign, {"written": foreign[:8]})))
         return out
     return [core.Case("C14-O/thread.parse", run, functions=["luqum.thread.parse"])]
 
